@@ -80,6 +80,38 @@ def norm(v: Any) -> Any:
         return [norm(x) for x in v]
     if isinstance(v, dict):
         return {k: norm(x) for k, x in v.items()}
+    return norm_scalar(v)
+
+
+def scalar_setup(case, schema_ref):
+    """-> (scalars config, extra files, token generators) for the cases that configure custom scalars: a pydantic-native type from an absolute
+    module, another one, and a class shipped inside the package with parse/serialize (three different import routes for the plugins to preserve)."""
+    import datetime
+
+    from graphql import GraphQLScalarType
+    customs = sorted(n for n, t in schema_ref.type_map.items() if isinstance(t, GraphQLScalarType) and n not in ("String", "Int", "Float", "Boolean", "ID"))
+    conf: Dict[str, Any] = {}
+    gens: Dict[str, Any] = {}
+    for k, n in enumerate(customs):
+        kind = ["datetime", "relative_class", "decimal"][(case["idx"] + k) % 3]
+        if kind == "datetime":
+            conf[n] = {"type": "datetime.datetime"}
+            gens[n] = lambda i: (datetime.datetime(2021, 1, 1) + datetime.timedelta(seconds=i)).isoformat()
+        elif kind == "decimal":
+            conf[n] = {"type": "decimal.Decimal"}
+            gens[n] = lambda i: "%d.25" % i
+        else:
+            conf[n] = {"type": ".vf_csm.VfTok", "parse": ".vf_csm.parse_tok", "serialize": ".vf_csm.ser_tok"}
+            gens[n] = lambda i: "tok#%d" % i
+    files = {"vf_csm.py": "class VfTok(str):\n    pass\n\n\ndef parse_tok(value):\n    return VfTok(value)\n\n\ndef ser_tok(value):\n    return str(value)\n"}
+    return conf, files, gens
+
+
+def norm_scalar(v: Any) -> Any:
+    import datetime
+    import decimal
+    if isinstance(v, (datetime.datetime, decimal.Decimal)):
+        return "%s:%s" % (type(v).__name__, v)
     return v
 
 
@@ -111,9 +143,10 @@ def drive(pkg, cfg, schema_ref, authored, names, case) -> Dict[str, Any]:
         is_sub = opnode.operation.value == "subscription"
         pmap = probe_param_map(client, is_async, mname, server, is_sub)
         for wi, (mode, rot) in enumerate([("full", 0), ("full", 1), ("nulls", 0)]):
-            world = World(schema_ref, seed=case["seed"] * 10 + wi, mode=mode, rotation=rot)
+            gens = scalar_setup(case, schema_ref)[2] if case.get("scalars") else None
+            world = World(schema_ref, seed=case["seed"] * 10 + wi, mode=mode, rotation=rot, custom_scalar_values=gens)
             server.world = world
-            kwargs = cw.argument_values(opnode, schema_ref, pkg, cfg, random.Random(wi), pmap)
+            kwargs = cw.argument_values(opnode, schema_ref, pkg, cfg, random.Random(wi), pmap, custom_scalar_values=gens)
             if kwargs is None:
                 obs["%s/%d" % (op_name, wi)] = "args-unbuildable"
                 continue
@@ -169,6 +202,34 @@ def worker(case: Dict[str, Any]) -> CaseResult:
     cfg_full = {k: v for k, v in case["cfg"].items() if not k.startswith("_")}
     queries = "\n\n".join(frs + ops)
     authored = parse(queries)
+    extra_files = dict(case.get("extra_files") or {})
+    if case.get("scalars") and not case.get("_sdl"):
+        # one more root field per custom scalar and an operation selecting nothing else: ShorterResults then returns the bare scalar type
+        import re as _re
+
+        from graphql import GraphQLScalarType, build_schema
+        qname = schema_ref.query_type.name
+        customs_ = sorted(n for n, t in schema_ref.type_map.items() if isinstance(t, GraphQLScalarType) and n not in ("String", "Int", "Float", "Boolean", "ID"))
+        probe_fields = "".join("  vfProbe%d: %s\n" % (k, [n, "[%s!]" % n, "%s!" % n][k % 3]) for k, n in enumerate(customs_))
+        sdl_new = _re.sub(r"(type %s[^{]*\{\n)" % _re.escape(qname), lambda m_: m_.group(1) + probe_fields, sdl, count=1)
+        if sdl_new != sdl and customs_:
+            try:
+                schema_ref = build_schema(sdl_new)
+                sdl = sdl_new
+                for k in range(len(customs_)):
+                    ops.append("query VfProbeOp%d { vfProbe%d }" % (k, k))
+                    names.append("VfProbeOp%d" % k)
+                queries = "\n\n".join(frs + ops)
+                authored = parse(queries)
+            except Exception:  # noqa: BLE001
+                pass
+    if case.get("scalars"):
+        sc_conf, sc_files, _ = scalar_setup(case, schema_ref)
+        if sc_conf:
+            cfg_full["scalars"] = sc_conf
+            cfg_full["files_to_include"] = list(cfg_full.get("files_to_include", [])) + ["vf_csm.py"]
+            extra_files.update(sc_files)
+            feats.add("scalar.config.three_import_routes")
     replay_case = dict(case)
     replay_case["_sdl"] = sdl
     replay_case["_queries"] = queries
@@ -182,7 +243,7 @@ def worker(case: Dict[str, Any]) -> CaseResult:
             cfg_l["plugins"] = plist
             cfg_l["target_package_name"] = name
             cfg_l["include_comments"] = "stable"
-            cfg = write_case(root, sdl, queries, cfg_l, extra_files=case.get("extra_files"))
+            cfg = write_case(root, sdl, queries, cfg_l, extra_files=extra_files or None)
             from pathlib import Path
             from types import SimpleNamespace
             gd = generate_in_subprocess(root, "client", cfg)
@@ -282,6 +343,27 @@ def worker(case: Dict[str, Any]) -> CaseResult:
                     if not sent <= consts:
                         violations.append(Violation(PROP, "extract-operations-identical", "[%s] operation strings sent by the unplugged client are not all constants of the operations module (missing %d)" % (
                             label, len(sent - consts)), fl, replay_case, mech="c15:extract-identical:" + label))
+            if FR in plist_norm:
+                # the deferred imports live under `if TYPE_CHECKING:`; nothing executes them at run time, so each is resolved here the way a type checker would
+                for pyf in sorted(res["dir"].glob("*.py")):
+                    try:
+                        tree_ = ast.parse(pyf.read_text())
+                    except SyntaxError:
+                        continue
+                    for node_ in ast.walk(tree_):
+                        if isinstance(node_, ast.If) and isinstance(node_.test, ast.Name) and node_.test.id == "TYPE_CHECKING":
+                            for imp in node_.body:
+                                if isinstance(imp, ast.ImportFrom):
+                                    count("deferred_imports_resolved")
+                                    try:
+                                        import importlib
+                                        m_ = importlib.import_module("." * imp.level + (imp.module or ""), package=res["pkg"].__name__)
+                                        for al in imp.names:
+                                            getattr(m_, al.name)
+                                    except BaseException as e_:  # noqa: BLE001
+                                        violations.append(Violation(PROP, "forward-refs-deferred-imports-resolve", "[%s] %s: `from %s%s import %s` under TYPE_CHECKING does not resolve: %s: %s" % (
+                                            label, pyf.name, "." * imp.level, imp.module or "", ", ".join(a.name for a in imp.names), type(e_).__name__, str(e_)[:200]), fl, replay_case,
+                                            mech="c15:forward-refs-deferred-import:" + label))
             if FR in plist_norm and not shorter:
                 count("forward_ref_hint_checks")
                 if res["hints"] != base["hints"]:
@@ -367,6 +449,9 @@ def run(tier: str, seed: int) -> int:
             pl.append(twin)
             pl.append([FR_MODULE if p_ == FR else p_ for p_ in twin])
         c["plugin_lists"] = pl
+        if i % 3 == 2:
+            c["scalars"] = True
+            c["dirty"] = sorted(set(c.get("dirty", [])) | {"schema.force_scalar"})
         if i % 5 == 3:
             # plugins meet the extra client methods and modules of the operation builder
             c["cfg"] = dict(c["cfg"], enable_custom_operations=True)
